@@ -13,11 +13,14 @@ def ledgerOf (k : Stk) : AccKey → Option Int := fun key => (k.dsh key).map (fu
 /-- **the abstraction map**: the state of Model/Superfluid.lean a state of Model/SuperfluidStaking.lean stands for. -/
 def absL (s : SState) : State := setD (ledgerOf s.k) s.b
 
-/-- the arithmetic room the refinement needs: every validator holds at most 2¹²⁷ tokens (the whole OSMO supply is
-about 2⁵⁰ base units), so that no 256-bit range check of the share arithmetic can fail. -/
-def roomB : Int := 2 ^ 127
+/-- the arithmetic room the refinement needs: every validator holds at most 2⁸² tokens (the whole OSMO supply is
+about 2⁵⁰ base units), so that no 256-bit range check of the share arithmetic can fail and no validator reaches 2⁶³
+power units (2⁶³·10⁶ ≈ 2⁸²·⁹ tokens), where staking's power index panics. -/
+def roomB : Int := 2 ^ 82
 
-theorem roomB_lit : roomB = 170141183460469231731687303715884105728 := by decide
+theorem roomB_lit : roomB = 4835703278458516698824704 := by decide
+
+theorem roomB_lt_powLimit : roomB < powLimit := by decide
 
 /-- the tokens staked with the listed validators. -/
 def sumTok (k : Stk) : List Nat → Int
@@ -263,6 +266,7 @@ theorem mintS_sim {s : SState} {a : Int} {key : AccKey} (hR : RO s.k s.b.supply 
             chkDec_of_range (by have := Int.mul_nonneg (Int.le_of_lt ha') (show (0 : Int) ≤ P18 by decide); omega)
               (by rw [Int.zero_add]; exact mulP18_le_decUpper (by rw [I256_lit]; rw [roomB_lit] at haB; omega))]
           dsimp only
+          rw [if_neg (by rw [powerOverflows_iff]; have := roomB_lt_powLimit; omega)]
           have hrange : chkDec (0 + a * P18) = some (0 + a * P18) :=
             chkDec_of_range (by have := Int.mul_nonneg (Int.le_of_lt ha') (show (0 : Int) ≤ P18 by decide); omega)
               (by rw [Int.zero_add]; exact mulP18_le_decUpper (by rw [I256_lit]; rw [roomB_lit] at haB; omega))
@@ -274,7 +278,7 @@ theorem mintS_sim {s : SState} {a : Int} {key : AccKey} (hR : RO s.k s.b.supply 
             dsimp only; rw [hrange]; exact ⟨_, rfl⟩
         · have hTp : 0 < (s.k.val key.2).tokens := by omega
           have hSp : 0 < (s.k.val key.2).shares := by rw [hR.rate]; exact Int.mul_pos hTp (by decide)
-          refine mintS_accepts hv ha' hTp hSp hd0 hdS (by rw [I256_lit]; rw [roomB_lit] at haB hTB; omega) ?_
+          refine mintS_accepts hv ha' hTp hSp hd0 hdS (by have := roomB_lt_powLimit; omega) ?_
           rw [hR.rate]
           exact mulP18_mul_le (mul_lt_I256 hT0 hTB (by omega) (by omega))
       obtain ⟨s', hs'⟩ := hok
